@@ -43,7 +43,22 @@ def ivp_reference(sp, grid, max_step=np.inf):
         sols.append(sol.y.T)
     if np.max(np.abs(sols[0] - sols[1])) > 1e-7 * (1 + np.max(np.abs(sols[0]))):
         return None
+    # How far does an *independent* integrator get at the tolerances bioscrape's simulator uses (odeint defaults,
+    # 1.49e-8)?  On exponentially sensitive transients (autocatalysis) that is well above the non-stiff rule of thumb;
+    # the comparison tolerance grows with it (see check).
+    try:
+        lo = solve_ivp(f, (grid[0], grid[-1]), x0, method="LSODA", t_eval=grid, rtol=1.49012e-8, atol=1.49012e-8,
+                       max_step=max_step)
+        if lo.success and lo.y.shape[1] == len(grid):
+            ivp_reference.conditioning = float(np.max(np.abs(lo.y.T - sols[0])))
+        else:
+            ivp_reference.conditioning = 0.0
+    except Exception:
+        ivp_reference.conditioning = 0.0
     return sols[0]
+
+
+ivp_reference.conditioning = 0.0
 
 
 def check(case):
@@ -124,7 +139,10 @@ def check(case):
     if not np.array_equal(got[0], x0):
         res.fail(("first_row_not_initial_condition", case["surface"]), got=[float(v) for v in got[0]], expected=[float(v) for v in x0])
         return res
-    tol = 2e-5 * (1 + np.max(np.abs(xref)))
+    cond = ivp_reference.conditioning if case["family"] != "L" else 0.0
+    tol = 2e-5 * (1 + np.max(np.abs(xref))) + 20.0 * cond
+    if cond > 1e-6 * (1 + np.max(np.abs(xref))):
+        res.label("sensitive_transient:tolerance_widened")
     err = np.abs(got - xref)
     if not np.all(np.isfinite(got)) or np.max(err) > tol:
         k, j = np.unravel_index(np.argmax(np.where(np.isfinite(err), err, np.inf)), err.shape)
@@ -230,9 +248,11 @@ def pulse_case(draw):
     w = draw(st.sampled_from([0.05, 0.1]))
     T = draw(st.sampled_from([8.0, 16.0]))
     tc = T * draw(st.sampled_from([0.5, 0.7, 0.8]))
-    tree = ["add", gen.num(k0), ["mul", gen.num(amp), ["exp", ["neg", ["pow", ["div", ["sub", ["t"], gen.num(tc)], gen.num(w)], gen.num(2)]]]]]
+    b.params["kin"] = k0          # named, so that the 'interface_reused' surface has parameter values to change
+    b.params["gdeg"] = g
+    tree = ["add", gen.sym("kin"), ["mul", gen.num(amp), ["exp", ["neg", ["pow", ["div", ["sub", ["t"], gen.num(tc)], gen.num(w)], gen.num(2)]]]]]
     b.reactions.append(gen.general([], [X], tree))
-    b.reactions.append(gen.massaction(b, [X], [] if len(species) == 1 else [species[1]], k=g))
+    b.reactions.append(gen.massaction(b, [X], [] if len(species) == 1 else [species[1]], k="gdeg"))
     if len(species) == 2:
         b.reactions.append(gen.massaction(b, [species[1]], [], k=draw(st.sampled_from([0.5, 1.0]))))
     x0 = {X: k0 / g}
